@@ -121,7 +121,7 @@ def run_shard(shard, tier, seed, wd, res):
                 s.op(gp + ".wnaf_tab_entry", tab, V.n(i))
             n = (8 if big else 14) if q else (50 if big else 120)
             sel = [0, 1, (1 << 255) - 1, R - 1, (1 << w) - 1, (1 << w), (1 << (w + 1)) - 1, (1 << (w - 1)) + 1,
-                   ((1 << w) + 1) << (255 - w - 1)] + [rng.choice(ks) for _ in range(n)] + [rng.getrandbits(255) for _ in range(n // 2)]
+                   ((1 << w) + 1) << (255 - w - 1)] + G.wnaf_coincidences(w) + [rng.choice(ks) for _ in range(n)] + [rng.getrandbits(255) for _ in range(n // 2)]
             for k in sel:
                 d = s.op(gp + ".wnaf_form", V.RR(k), V.n(w))
                 s.op(gp + ".wnaf_exp", tab, d)
